@@ -17,7 +17,18 @@ EXTENDS Integers, Sequences, FiniteSets
 CONSTANTS N,          \* records sent (<= 4)
           K,          \* adversary actions (<= 2)
           Regions,    \* byte regions of a record a Flip can hit
-          InjKinds    \* kinds of forged records
+          InjKinds,   \* kinds of forged records
+          PadAuth     \* every byte of a record is authenticated (FALSE: SSL 3.0 block ciphers)
+
+\* SSL 3.0 block-cipher records end in padding whose content is arbitrary and not covered by the
+\* MAC (the protocol weakness behind POODLE): an edit that only reaches the padding -- garbling the
+\* last ciphertext block when it holds nothing but padding, or lengthening the record by one block --
+\* is accepted by ANY conforming SSL 3.0 receiver whenever the new last byte happens to decrypt to
+\* the right padding length (1 in 256).  The fragment handed to the application is then still the
+\* sender's, authenticated by the MAC, so "only a prefix of what was sent" is unaffected; what the
+\* protocol cannot promise for these suites is that such an edit is noticed.  TLS >= 1.0 fixes the
+\* padding bytes, stream and AEAD suites have none: PadAuth = TRUE.
+PadRegions == {"lenlo", "macstart", "pad", "last"}
 
 \* regions whose flip the receiver notices before/without a MAC computation
 HdrVersion == {"vmaj", "vmin"}
@@ -34,12 +45,13 @@ VARIABLES wire,       \* Seq of wire records after the adversary's edits
           phase,      \* "adv" | "recv" | "done"
           pos,        \* receiver: next wire index                       (Layer M)
           seq,        \* receiver: records accepted = sequence number     (Layer M)
+          skew,       \* receiver: record boundaries lost (a lengthened record was accepted) (Layer M)
           delivered,  \* Seq of wire records handed to the application    (observable)
           err         \* "none" or the class of the error reported        (observable)
-vars == <<wire, nacts, phase, pos, seq, delivered, err>>
+vars == <<wire, nacts, phase, pos, seq, skew, delivered, err>>
 
 Init == /\ wire = Original /\ nacts = 0 /\ phase = "adv"
-        /\ pos = 1 /\ seq = 0 /\ delivered = <<>> /\ err = "none"
+        /\ pos = 1 /\ seq = 0 /\ skew = FALSE /\ delivered = <<>> /\ err = "none"
 
 \* ------------------------------------------------------------------ adversary
 Whole(i) == wire[i].part = "full"
@@ -48,7 +60,7 @@ RemoveAt(s, k) == SubSeq(s, 1, k - 1) \o SubSeq(s, k + 1, Len(s))
 \* an incomplete record can only be the end of the stream: truncation is the last edit
 NoPartial == \A i \in 1..Len(wire) : Whole(i)
 Act == phase = "adv" /\ nacts < K /\ nacts' = nacts + 1 /\ NoPartial
-       /\ UNCHANGED <<phase, pos, seq, delivered, err>>
+       /\ UNCHANGED <<phase, pos, seq, skew, delivered, err>>
 
 Flip(i, g) == /\ Act /\ i \in 1..Len(wire) /\ wire[i].mod = "none" /\ wire[i].inj = "none"
               /\ wire' = [wire EXCEPT ![i].mod = g]
@@ -71,12 +83,15 @@ Adversary == \/ \E i \in 1..(N + K), g \in Regions : Flip(i, g)
              \/ \E j \in 0..(N + K), k \in InjKinds : Inject(j, k)
 
 Release == /\ phase = "adv" /\ phase' = "recv"
-           /\ UNCHANGED <<wire, nacts, pos, seq, delivered, err>>
+           /\ UNCHANGED <<wire, nacts, pos, seq, skew, delivered, err>>
 
 \* ------------------------------------------------------------------ receiver, Layer M
 \* halfConn.decrypt accepts a record iff it is complete, untouched, and it is the
 \* (seq+1)-th record the sender produced under the current keys.
-Authentic(r) == r.part = "full" /\ r.mod = "none" /\ r.inj = "none" /\ r.src = seq + 1
+Authentic(r) == r.part = "full" /\ r.mod = "none" /\ r.inj = "none" /\ r.src = seq + 1 /\ ~skew
+\* unauthenticated padding: the sender's next record, edited only where padding can be, MAY pass
+MayPass(r) == /\ ~PadAuth /\ ~skew /\ r.part = "full" /\ r.inj = "none" /\ r.src = seq + 1
+              /\ r.mod \in PadRegions
 
 \* an incomplete header followed by the end of the stream is reported like a close between
 \* records (readRecord keeps the transport's io.EOF there: documented leniency, see Layer P)
@@ -87,16 +102,19 @@ ErrOf(r) == IF r.part = "header" THEN "eof"
             ELSE IF r.part = "body" THEN "ueof"
             ELSE "mac"
 
+Accept(r) == /\ delivered' = Append(delivered, r) /\ seq' = seq + 1 /\ pos' = pos + 1
+             /\ skew' = (skew \/ r.mod \in HdrLength)     \* a lengthened record swallowed its successor's head
+             /\ UNCHANGED <<err, phase>>
+Fail(e) == /\ err' = e /\ phase' = "done"                  \* first permanent error: nothing more is read
+           /\ UNCHANGED <<pos, seq, skew, delivered>>
+
 Recv == /\ phase = "recv" /\ err = "none"
         /\ IF pos > Len(wire)
-             THEN /\ err' = "eof" /\ phase' = "done"           \* transport closed between records
-                  /\ UNCHANGED <<pos, seq, delivered>>
+             THEN Fail(IF skew THEN "ueof" ELSE "eof")       \* transport closed (between records unless skewed)
              ELSE LET r == wire[pos] IN
-                  IF Authentic(r)
-                    THEN /\ delivered' = Append(delivered, r) /\ seq' = seq + 1 /\ pos' = pos + 1
-                         /\ UNCHANGED <<err, phase>>
-                    ELSE /\ err' = ErrOf(r) /\ phase' = "done"  \* first permanent error: nothing more is read
-                         /\ UNCHANGED <<pos, seq, delivered>>
+                  IF Authentic(r) THEN Accept(r)
+                  ELSE IF MayPass(r) THEN Accept(r) \/ Fail(ErrOf(r))
+                  ELSE Fail(ErrOf(r))
         /\ UNCHANGED <<wire, nacts>>
 
 Next == Adversary \/ Release \/ Recv
@@ -113,15 +131,19 @@ CleanPrefix == IF \A i \in 1..Len(wire) : Intact(i) THEN Len(wire)
 \* deliberately accepts as a plain end of stream: named leniency, excluded from `Detected`.
 Tampered == CleanPrefix < Len(wire) /\ wire[CleanPrefix + 1].part # "header"
 
-\* the application receives only a prefix of what was sent, unmodified, in order, once
-PrefixOK == \A i \in 1..Len(delivered) : delivered[i] = Rec(i)
-\* nothing at or behind the first non-authentic record is delivered
-StopsAtTamper == phase # "adv" => Len(delivered) <= CleanPrefix
+\* the application receives only a prefix of what was sent, unmodified, in order, once.
+\* (With unauthenticated padding the fragment of a record edited in PadRegions is still the sender's.)
+SameFragment(r, i) == /\ r.src = i /\ r.inj = "none" /\ r.part = "full"
+                      /\ (r.mod = "none" \/ (~PadAuth /\ r.mod \in PadRegions))
+PrefixOK == \A i \in 1..Len(delivered) : SameFragment(delivered[i], i)
+\* nothing at or behind the first non-authentic record is delivered (needs authenticated padding)
+StopsAtTamper == (PadAuth /\ phase # "adv") => Len(delivered) <= CleanPrefix
 \* the run ends with an error; tampering that reached the receiver is a real error
+\* (with unauthenticated padding an edit confined to padding may pass unnoticed: see PadAuth)
 Detected == phase = "done" => /\ err # "none"
-                              /\ Tampered => err # "eof"
+                              /\ (PadAuth /\ Tampered) => err # "eof"
 \* Layer M only (diagnostic): everything in front of the first bad record is delivered
-DeliversCleanPrefix == phase = "done" => Len(delivered) = CleanPrefix
+DeliversCleanPrefix == (PadAuth /\ phase = "done") => Len(delivered) = CleanPrefix
 
 TypeOK == /\ nacts \in 0..K /\ seq \in 0..N /\ Len(wire) <= N + K
           /\ phase \in {"adv", "recv", "done"}
